@@ -9,12 +9,15 @@ open QR
 /-- compiled matrices contain no `None`; scoring treats a (never occurring) `None` as light -/
 def Mat.toBMat (m : Mat) : BMat := m.toList.map fun row => row.toList.map fun c => c.getD false
 
-/-- `best_mask_pattern()`: strict `>` keeps the first minimum -/
+/-- the update of `(min_lost_point, pattern)` in the loop of `best_mask_pattern`: strict `>` keeps the first minimum -/
+def pickMask (st : Nat × Nat) (i lost : Nat) : Nat × Nat :=
+  if i = 0 ∨ st.1 > lost then (lost, i) else st
+
+/-- `best_mask_pattern()` -/
 def bestMaskPattern (version level : Nat) (data : List Nat) : R Nat := do
   let (_, pattern) ← (List.range 8).foldlM (fun (st : Nat × Nat) i => do
       let m ← makeImpl version level true i data
-      let lost := lostPoint m.toBMat
-      if i = 0 ∨ st.1 > lost then pure (lost, i) else pure st) (0, 0)
+      pure (pickMask st i (lostPoint m.toBMat))) (0, 0)
   pure pattern
 
 structure Cfg where
